@@ -3,10 +3,12 @@
 Decided at the level of the real binary: every project is generated in several fresh processes
 (fresh hash seeds), with and without --verbose / --visualize-deps, and under semantics-preserving
 source transformations. Oracle (Gallina, extracted: Spec/C13Spec.v `rel`): two versions of a generated
-file are token-identical / the same multiset of module items / different. Model (Model/C13Order.v):
-`gen zod omega p` = the declarations of every generated file in order, as a function of the hash orders
-omega; the correspondence reconstructs omega from what is observable in a run's files and requires the
-model to reproduce the observed declaration order of every file of every run."""
+file are token-identical / the same multiset of module items / different; bytes are compared first.
+Model (Model/C13Order.v, following the code with C13-sort-before-use and the other accepted repairs):
+`gen zod omega p` = the declarations of every generated file in order; it is proved independent of the
+hash orders omega, is run under a random omega for every run of the binary, and must reproduce the
+declaration order of every file of every run."""
+import hashlib
 import json
 import os
 import random
@@ -17,21 +19,20 @@ from tools.vlib import Outcome, sx
 from tools.props import c13_gen as G
 
 MANIFEST = {
-    "level_text": "Coq theorems (Properties/C13.v, no axioms) about an executable skeleton of the pipeline in which every hash-based collection (AstCache, used_structs, the requested type set, every dependency set, resolved_types, dependencies) is a list in an explicit, universally quantified order omega: for all omega the multiset of declarations of every generated file is the same when no type name is defined twice (C13_set_independent), added noise items and noise-only files change nothing (C13_noise, C13_noise_file), redistributing items over files changes at most the order (C13_move), each file is fully order independent outside a boolean class (C13_deterministic_*), the order dependence inside the class and the content dependence under duplicate type names are refuted with computed witnesses, and sorting the discovered collections removes the order dependence (C13_sorted_fix). Tied to /repo on every run: each generated project is run through the real binary in 8 (quick) / 32 (thorough) fresh processes with and without --verbose / --visualize-deps and under noise / reorder / move / split / merge transformations; files are compared byte for byte and through the extracted module parser; the model, fed the orders observable in each run, must reproduce the declaration order of every file.",
+    "level_text": "Coq theorems (Properties/C13.v, no axioms) about an executable skeleton of the pipeline in which every hash-based collection (AstCache, used_structs, the requested type set, every dependency set, resolved_types, dependencies) is a list in an explicit, universally quantified order omega which the code sorts by name before use: for all omega and omega' the declarations of every generated file and of the two visualisation files are the same lists (C13_order_independent, C13_viz_independent, via isort_perm_invariant); added noise items change nothing and a noise-only file changes at most the order (C13_noise, C13_noise_file); redistributing items over files changes at most the order of declarations when no type name is defined twice and no event name is emitted with two payload types (C13_move), and both exceptions are exhibited by computed witnesses (C13_move_dupdef_refuted, C13_move_dupevent_refuted). Tied to the code on every run: each generated project is run through the real binary in 8 (quick) / 32 (thorough) fresh processes with and without --verbose / --visualize-deps and under noise / reorder / move / split / merge transformations; files are compared byte for byte and through the extracted module parser; the model must reproduce the declaration order of every file of every run.",
     "design_ref": "DESIGN.md section 5 C13",
-    "level_note": "Partial where stated: for Zod-mode types.ts the run-time class is kf_zod_unordered (two used types not strictly ordered by reachability) while the proved determinism theorem C13_deterministic_types uses the wider premise kf_used2 (fewer than two used types); the statement under the narrow class is kept as C13_zod_types_full_statement (not asserted). The skeleton abstracts declaration content to (name, body id): byte-level content determinism is established by the differential run only. Comments and whitespace are below the model's input (covered by the run). Hash orders inside the binary are not observable without --visualize-deps; the correspondence searches for orders that explain a run (python, untrusted) and the extracted model verifies them.",
+    "level_note": "The skeleton abstracts declaration content to (name, body id / payload id): byte-level content determinism is established by the differential run only (fresh processes are what would expose a regression of the sorting). Comments and whitespace are below the model's input (covered by the run). The order of names in the model is numeric; the python side numbers paths in PathBuf (component-wise) order and names in byte order so that it coincides with the code's sort.",
     "technique": "Rocq/Coq proof over hand-written model + correspondence check (extracted OCaml vs the real CLI binary in fresh processes)"
 }
 
-RULE = ("multi-file projects (1..6 files; shapes multi / cmd1 / onefile / dup) x modes none, zod x fresh processes "
+RULE = ("multi-file projects (1..6 files; shapes multi / cmd1 / onefile / dup / dupev) x modes none, zod x fresh processes "
         "(quick 8, thorough 32 per project and mode, flags cycling through none / --verbose / --visualize-deps / both) "
-        "plus noise variants and reorder / move / split / merge variants. One evaluation = one (project, mode, aspect) "
-        "group of runs; non-trivial = the project has at least two files or at least two commands; distinct = distinct "
-        "(project, mode, aspect, variant)")
+        "plus noise variants and reorder / move / split / merge (reverse, movedef for the duplicate classes) variants. "
+        "One evaluation = one (project, mode, aspect) group of runs; non-trivial = the project has at least two files or at "
+        "least two commands; distinct = distinct (project, mode, aspect, variant)")
 TRUSTED = ["Spec/TsModule.v parser and Spec/C13Spec.v rel/labels (extracted) are the run-time oracle on generated files",
-           "python: reconstruction of omega from a run's files and the search for set orders that explain a Zod-mode types.ts (the extracted model re-checks every proposed omega)",
-           "python: canonicalisation of dependency-graph.txt/.dot (line multiset with sorted depends-on lists)",
-           "tools/props/c13_gen.py Skeleton: the map from a project case to the model's input (custom type names per signature / field)"]
+           "python: parsing of dependency-graph.txt/.dot into the lists the model predicts; recovery of a listener's payload type by a regular expression",
+           "tools/props/c13_gen.py Skeleton: the map from a project case to the model's input (custom type names per signature / field, the event parser's payload inference, numbering in sort order)"]
 ASSUMPTIONS = ["fresh processes sample the hash orders (std RandomState is seeded per process)",
                "on the generator's type contexts the name harvest and the parsed type structure mention the same custom names (other contexts belong to C07)"]
 
@@ -133,7 +134,8 @@ def expected_labels(out, sk, zod):
         else:
             res["commands.ts"].append(("wrapper", cname(d[1])))
     if ev:
-        res["events.ts"] = [("listener", sk.evs[int(d[1]) - 1]) for d in ev[0]]
+        res["events.ts"] = [("listener", sk.evs[int(d[1]) - 1],
+                             sk.pays[int(d[2])] if sk.pays[int(d[2])] in sk.tid else None) for d in ev[0]]
     for d in ix:
         res["index.ts"].append(("reexport", ["./types", "./commands", "./events"][int(d[1])]))
     return res
@@ -182,167 +184,20 @@ def parse_viz(txt, dot):
     return {"cmds": cmds, "types": types, "nodes": nodes, "edges": edges, "dot_cmds": dcmds}
 
 
-def canon_viz(name, text):
-    lines = []
-    for line in text.split("\n"):
-        if "depends on: " in line:
-            a, b = line.split("depends on: ", 1)
-            line = a + "depends on: " + ", ".join(sorted(x.strip() for x in b.split(",")))
-        lines.append(line)
-    return sorted(lines)
-
-
-def topo_merge(paths, chains, extra_edges):
-    """a linear order of paths compatible with the given chains and edges (None if contradictory)"""
-    succ = {p: set() for p in paths}
-    indeg = {p: 0 for p in paths}
-    es = set(extra_edges)
-    for ch in chains:
-        for a, b in zip(ch, ch[1:]):
-            es.add((a, b))
-    for a, b in es:
-        if a == b:
-            return None
-        if b not in succ[a]:
-            succ[a].add(b)
-            indeg[b] += 1
-    out = []
-    ready = sorted(p for p in paths if indeg[p] == 0)
-    while ready:
-        p = ready.pop(0)
-        out.append(p)
-        for q in sorted(succ[p]):
-            indeg[q] -= 1
-            if indeg[q] == 0:
-                ready.append(q)
-        ready.sort()
-    return out if len(out) == len(paths) else None
-
-
-def explain_topo(graph, observed, fixed):
-    """Find (request order, dependency-set orders) under which the DFS of topological_sort_types,
-    started from the observed names, emits `observed` (restricted to observed names). graph: name ->
-    list of names (a set); fixed: name -> order that must be used (seen in dependency-graph.txt).
-    Backtracking; the extracted model verifies the answer."""
-    vis = set(observed)
-    budget = [200000]
-
-    def visit(n, visited, visiting, i):
-        budget[0] -= 1
-        if budget[0] < 0:
-            return
-        if n in visiting or n in visited:
-            yield visited, i, {}
-            return
-        deps = list(dict.fromkeys(graph.get(n, [])))
-        visiting2 = visiting | {n}
-
-        def finish(visited, i, chosen, ords):
-            ords = dict(ords)
-            ords[n] = chosen
-            if n in vis:
-                if i < len(observed) and observed[i] == n:
-                    yield visited | {n}, i + 1, ords
-            else:
-                yield visited | {n}, i, ords
-
-        def go(rem, visited, i, chosen, ords):
-            if not rem:
-                yield from finish(visited, i, chosen, ords)
-                return
-            if n in fixed:
-                order = [d for d in fixed[n] if d in rem] + [d for d in rem if d not in fixed[n]]
-                cands = [order[0]]
-            else:
-                noop = [d for d in rem if d in visited or d in visiting2]
-                cands = [noop[0]] if noop else list(rem)
-            for d in cands:
-                rest = [x for x in rem if x != d]
-                for v2, i2, o2 in visit(d, visited, visiting2, i):
-                    o = dict(ords)
-                    o.update(o2)
-                    yield from go(rest, v2, i2, chosen + [d], o)
-
-        yield from go(deps, visited, i, [], {})
-
-    def top(remaining, visited, i, req, ords):
-        if i == len(observed) and all(r in visited for r in remaining):
-            yield req + [r for r in remaining], ords
-            return
-        for r in remaining:
-            if r in visited:
-                continue
-            for v2, i2, o2 in visit(r, visited, frozenset(), i):
-                o = dict(ords)
-                o.update(o2)
-                yield from top([x for x in remaining if x != r], v2, i2, req + [r], o)
-
-    for req, ords in top(list(observed), frozenset(), 0, [], {}):
-        return req, ords
-    return None
-
-
 class Run:
     __slots__ = ("case", "sk", "mode", "flags", "variant", "res", "labels", "omega", "model", "corr", "why")
 
 
-def reconstruct(run):
-    """omega (as the nested list the runner decodes) from the observable parts of one run, or None"""
-    sk, lab = run.sk, run.labels
-    zod = run.mode == "zod"
-    if any(lab.get(f) is None for f in lab):
-        return None, "a generated file does not parse"
-    cw = [l[1] for l in lab.get("commands.ts", []) if l[0] == "wrapper"]
-    le = [l[1] for l in lab.get("events.ts", []) if l[0] == "listener"]
-    if any(c not in sk.cmd_file for c in cw) or any(e not in sk.ev_file for e in le):
-        return None, "unknown command or event name in the output"
-    fc = list(dict.fromkeys(sk.cmd_file[c] for c in cw))
-    fe = list(dict.fromkeys(sk.ev_file[e] for e in le))
-    edges = []
-    tl = lab.get("types.ts", [])
-    winners = {}
-    for n in sk.dup_names():
-        for l in tl:
-            nm = l[1][:-6] if (l[0] == "const" and l[1].endswith("Schema")) else l[1]
-            if l[0] in ("interface", "const") and nm == n and l[2] is not None:
-                for rel, body in sk.defs[n]:
-                    if marker_of(sk.bodies[body][1]) == l[2]:
-                        winners[n] = rel
-        if n in winners:
-            edges += [(rel, winners[n]) for rel, _ in sk.defs[n] if rel != winners[n]]
-    order = topo_merge(sk.paths, [fc, fe], edges)
-    if order is None:
-        return None, "command order, event order and emitted definitions are not explained by one file order"
-    w_files = [sk.pid[p] for p in order]
-    pos = {p: i for i, p in enumerate(order)}
-    windef = {}
-    for n, ds in sk.defs.items():
-        rel, body = max(ds, key=lambda d: pos[d[0]])
-        windef[n] = sk.bodies[body][1]
-    graph = {n: list(dict.fromkeys(m for f in it.get("fields", []) for m in G.custom_names(f["ty"]))) if it["kind"] == "struct" else []
-             for n, it in windef.items()}
-    w_used, w_req, w_deps, w_res, w_dmap = [], [], [], [], []
-    fixed = {}
-    if "--visualize-deps" in run.flags and run.res["files"].get(VIZ[0]) is not None:
-        v = parse_viz(run.res["files"][VIZ[0]], run.res["files"].get(VIZ[1], ""))
-        if all(t[0] in sk.tid for t in v["types"]) and all(d in sk.tid for t in v["types"] for d in t[1]):
-            w_res = [sk.tid[t[0]] for t in v["types"]]
-            fixed = {t[0]: t[1] for t in v["types"]}
-            w_dmap = [sk.tid[a] for a in dict.fromkeys(a for a, _ in v["edges"]) if a in sk.tid]
-    if not zod:
-        w_used = [sk.tid[l[1]] for l in tl if l[0] in ("interface", "type") and l[1] in sk.tid]
-        w_deps = [[sk.tid[n], [sk.tid[d] for d in ds]] for n, ds in fixed.items()]
-    else:
-        obs = [l[1][:-6] for l in tl if l[0] == "const" and l[1].endswith("Schema") and l[1][:-6] in sk.tid]
-        ex = explain_topo(graph, obs, fixed)
-        if ex is None:
-            return None, "no request/dependency order explains the schema order %s" % obs
-        req, ords = ex
-        w_req = [sk.tid[r] for r in req]
-        ords = dict(ords)
-        ords.update({n: ds for n, ds in fixed.items()})
-        w_deps = [[sk.tid[n], [sk.tid[d] for d in ds if d in sk.tid]] for n, ds in ords.items() if n in sk.tid]
-    return [w_files, w_used, w_req, w_deps, w_res, w_dmap], None
+def random_omega(run, salt):
+    """some hash order for every collection (the model sorts before use, so any will do)"""
+    sk = run.sk
+    rng = random.Random(hashlib.sha1(("%s|%s|%s" % (salt, run.mode, run.variant)).encode()).hexdigest())
+    def perm(n):
+        l = list(range(1, n + 1))
+        rng.shuffle(l)
+        return l
+    nt = len(sk.tys)
+    return [perm(len(sk.paths)), perm(nt), perm(nt), [[n, perm(nt)] for n in perm(nt)], perm(nt), perm(nt)]
 
 
 # ----------------------------------------------------------------------------- evaluation of run groups
@@ -361,33 +216,8 @@ def batch_rel(pairs):
 
 def class_flags(sks):
     res = vlib.run_runner("c13-classes", [sx(sk.project) for sk in sks])
-    keys = ("dupdef", "cmd_files", "ev_files", "param_files", "used2", "zod_unordered", "viz")
+    keys = ("dupdef", "dupevent")
     return [dict(zip(keys, [x == "true" for x in r])) for r in res]
-
-
-def file_class(cl, fname, zod):
-    """may the order of declarations in this file depend on the hash order (model's class)?"""
-    if fname == "commands.ts":
-        return cl["cmd_files"]
-    if fname == "events.ts":
-        return cl["ev_files"]
-    if fname == "types.ts":
-        return cl["param_files"] or (cl["zod_unordered"] if zod else cl["used2"])
-    if fname == ".typecache":
-        return cl["cmd_files"]
-    return False
-
-
-def order_only(cl, fname, zod, relation):
-    """None: the relation is not an order-only difference; True/False: it is one, and the model's class
-    allows / does not allow it. Token-identical versions of types.ts with different bytes differ in blank
-    lines only: every command leaves a line there, also one without a Params declaration, so the layout
-    follows the command order."""
-    if relation == "same-multiset":
-        return file_class(cl, fname, zod)
-    if relation == "same-items" and fname == "types.ts":
-        return cl["cmd_files"]
-    return None
 
 
 def evaluate(groups, tier):
@@ -397,8 +227,7 @@ def evaluate(groups, tier):
     texts = set()
     allruns = []
     for g in groups:
-        for r in g["runs"]:
-            allruns.append(r)
+        allruns.extend(g["runs"])
         for vname, (vcase, vruns) in g["variants"].items():
             allruns.extend(vruns)
     for r in allruns:
@@ -412,19 +241,22 @@ def evaluate(groups, tier):
             if f in r.res["files"]:
                 nl = norm_labels(lab[r.res["files"][f]], r.sk)
                 r.labels[f] = strip_markers(nl, r.sk) if nl is not None else None
-    # 2. model on every run, under the reconstructed omega
+        if r.labels.get("events.ts") is not None:
+            pay = dict((n, t) for t, n in re.findall(r"listen<types\.(\w+)>\('([^']*)'", r.res["files"]["events.ts"]))
+            r.labels["events.ts"] = [(l[0], l[1], pay.get(l[1]) if pay.get(l[1]) in r.sk.tid else None) if l[0] == "listener" else l
+                                     for l in r.labels["events.ts"]]
+    # 2. the model on every run, under some hash order
     jobs, jruns = [], []
-    for r in allruns:
+    for i, r in enumerate(allruns):
         r.corr, r.why, r.model = True, None, None
         if r.res["status"] != 0 or "commands.ts" not in r.res["files"]:
             r.corr, r.why = False, "run failed or wrote no commands.ts (status %s)" % r.res["status"]
             continue
-        om, why = reconstruct(r)
-        r.omega = om
-        if om is None:
-            r.corr, r.why = False, why
+        if any(v is None for v in r.labels.values()):
+            r.corr, r.why = False, "a generated file does not parse"
             continue
-        jobs.append(sx([r.mode == "zod", om, r.sk.project]))
+        r.omega = random_omega(r, i)
+        jobs.append(sx([r.mode == "zod", r.omega, r.sk.project]))
         jruns.append(r)
     outs = vlib.run_runner("c13-gen", jobs)
     vjobs, vruns = [], []
@@ -440,7 +272,7 @@ def evaluate(groups, tier):
             if (f in exp) != (f in r.labels):
                 r.corr, r.why = False, "file set: %s model=%s impl=%s" % (f, f in exp, f in r.labels)
             elif f in exp and exp[f] != r.labels[f]:
-                r.corr, r.why = False, "declaration order of %s: model %s, implementation %s" % (f, exp[f], r.labels[f])
+                r.corr, r.why = False, "declarations of %s: model %s, implementation %s" % (f, exp[f], r.labels[f])
         if "--visualize-deps" in r.flags and VIZ[0] in r.res["files"]:
             vjobs.append(sx([r.omega, r.sk.project]))
             vruns.append(r)
@@ -460,16 +292,8 @@ def evaluate(groups, tier):
             r.corr, r.why = False, "visualisation: dot nodes %s vs model %s" % (v["nodes"], m_nodes)
         elif m_edges != v["edges"]:
             r.corr, r.why = False, "visualisation: dot edges %s vs model %s" % (v["edges"], m_edges)
-        else:
-            # edges of one source are contiguous and in the dependency order of that source
-            by = {}
-            for a, b in v["edges"]:
-                by.setdefault(a, []).append(b)
-            mt = dict((t[0], t[1]) for t in m_types)
-            if any(by[a] != mt.get(a) for a in by):
-                r.corr, r.why = False, "visualisation: dot edge order differs from the depends-on order"
     # 3. classes
-    sks, owner = [], []
+    sks = []
     for g in groups:
         sks.append(g["runs"][0].sk)
         for vname, (vcase, vruns) in g["variants"].items():
@@ -525,13 +349,12 @@ def evaluate(groups, tier):
 
     results = []
     for g in groups:
-        zod = g["mode"] == "zod"
         cl = g["cls"]
         case_id = {"project": g["case"], "mode": g["mode"], "shape": g["shape"]}
         nontriv = len(g["case"]["files"]) >= 2 or len(g["runs"][0].sk.cmds) >= 2
-        # ---- aspect: determinism of the TypeScript files over base + noise runs
+        # ---- aspect: identical sources (also with added noise, any flags) => identical files
         pool = g["pool"]
-        fails, kfs, det = [], set(), {}
+        fails, det = [], {}
         bad = [r for r in pool if r.res["status"] != 0]
         if bad:
             fails.append("run exits with status %s: %s" % (bad[0].res["status"], bad[0].res["log"][-300:]))
@@ -546,55 +369,35 @@ def evaluate(groups, tier):
         for f in TS:
             vs = g["versions"][f]
             det[f] = len(vs)
-            if len(vs) == 1:
-                continue
-            rels = [relation(vs[0], t) for t in vs[1:]]
-            if all(order_only(cl, f, zod, x) is not None for x in rels):
-                if all(order_only(cl, f, zod, x) for x in rels):
-                    kfs.add("C13-1")
-                else:
-                    fails.append("%s: %d versions differing in declaration order / layout (%s) although the model's class says this file is order independent" % (f, len(vs), sorted(set(rels))))
-            elif cl["dupdef"] and f == "types.ts" and all(x in ("same-multiset", "different") or order_only(cl, f, zod, x) for x in rels):
-                kfs.add("C13-2")
-            else:
-                which = "among the plain runs" if len(versions(g["runs"], f)) > 1 else "between plain runs and runs on sources with added noise"
-                fails.append("%s: %d versions %s, relations %s" % (f, len(vs), which, sorted(set(rels))))
-        tc = versions(g["runs"], ".typecache")
-        det[".typecache"] = len(tc)
-        if len(tc) > 1 and not file_class(cl, ".typecache", zod) and not cl["dupdef"]:
-            fails.append(".typecache: %d versions although the command order is fixed" % len(tc))
+            if len(vs) > 1:
+                rels = sorted({relation(vs[0], t) for t in vs[1:]})
+                which = "among runs on identical sources" if len(versions(g["runs"], f)) > 1 else "between runs on the sources and on the sources with added noise"
+                fails.append("%s: %d versions %s, relations %s" % (f, len(vs), which, rels))
+        for flag in (False, True):      # the cache key covers visualize_deps
+            tc = versions([r for r in g["runs"] if ("--visualize-deps" in r.flags) == flag], ".typecache")
+            det[".typecache" + (" (viz)" if flag else "")] = len(tc)
+            if len(tc) > 1:
+                fails.append(".typecache: %d versions among runs on identical sources and flags" % len(tc))
         corr = all(r.corr for r in pool)
         why = next((r.why for r in pool if not r.corr), None)
-        ok = not fails and not kfs
-        kf = None
-        if not fails and kfs:
-            kf = "C13-2" if "C13-2" in kfs else "C13-1"
         detail = {"runs": len(pool), "distinct_versions": det, "classes": cl, "failures": fails[:4], "corr_break": why,
                   "flags": sorted({" ".join(r.flags) for r in pool})}
-        results.append(("dupdef" if g["shape"] == "dup" else "determinism",
-                        Outcome(dict(case_id, aspect="determinism"), corr, ok, kf, detail, nontriv)))
+        results.append(("determinism", Outcome(dict(case_id, aspect="determinism"), corr, not fails, None, detail, nontriv)))
         # ---- aspect: the two visualisation files
         vr = [r for r in g["runs"] if "--visualize-deps" in r.flags and r.res["status"] == 0]
         if vr:
-            fails, kfv = [], False
+            fails = []
             for f in VIZ:
                 vs = versions(vr, f)
                 if None in vs:
                     fails.append("%s missing in a --visualize-deps run" % f)
                 elif len(vs) > 1:
-                    if len({json.dumps(canon_viz(f, t)) for t in vs}) == 1 and cl["viz"]:
-                        kfv = True
-                    elif cl["dupdef"]:
-                        kfv = True
-                    else:
-                        fails.append("%s: %d versions not explained by iteration order (class viz=%s)" % (f, len(vs), cl["viz"]))
+                    fails.append("%s: %d versions among runs on identical sources" % (f, len(vs)))
             nv = [r for r in g["runs"] if "--visualize-deps" not in r.flags]
             if any(set(r.res["files"]) & set(VIZ) for r in nv):
                 fails.append("a visualisation file was written without --visualize-deps")
-            ok = not fails and not kfv
-            results.append(("viz", Outcome(dict(case_id, aspect="viz"), all(r.corr for r in vr), ok,
-                                           "C13-3" if (kfv and not fails) else None,
-                                           {"runs": len(vr), "failures": fails[:4], "classes": cl,
+            results.append(("viz", Outcome(dict(case_id, aspect="viz"), all(r.corr for r in vr), not fails, None,
+                                           {"runs": len(vr), "failures": fails[:4],
                                             "distinct_versions": {f: len(versions(vr, f)) for f in VIZ}}, nontriv)))
         # ---- aspect: transformations that may only reorder declarations
         for vn, (vcase, vruns) in g["variants"].items():
@@ -610,25 +413,21 @@ def evaluate(groups, tier):
                 b = g["versions"][f][0]
                 x = relation(b, vs[0])
                 if x not in ("identical", "same-items", "same-multiset"):
-                    if cl["dupdef"] or vcl["dupdef"]:
+                    if f == "types.ts" and (cl["dupdef"] or vcl["dupdef"]):
                         kfs.add("C13-2")
+                    elif f == "events.ts" and cl["dupevent"]:
+                        kfs.add("C13-4")
                     else:
                         fails.append("%s after %s: %s (the set or content of declarations changed)" % (f, vn, x))
                 if len(vs) > 1:
-                    rels = [relation(vs[0], t) for t in vs[1:]]
-                    if all(order_only(vcl, f, zod, y) for y in rels):
-                        pass        # the variant's own order dependence, inside its class: judged in the determinism stream
-                    elif vcl["dupdef"]:
-                        kfs.add("C13-2")
-                    else:
-                        fails.append("%s after %s: %d versions, relations %s" % (f, vn, len(vs), sorted(set(rels))))
+                    fails.append("%s after %s: %d versions among runs on identical sources" % (f, vn, len(vs)))
             ok = not fails and not kfs
             kf = None
             if not fails and kfs:
-                kf = "C13-2" if "C13-2" in kfs else "C13-1"
+                kf = "C13-2" if "C13-2" in kfs else "C13-4"
             results.append(("transform", Outcome(dict(case_id, aspect="transform", variant=vn, transformed=vcase),
                                                  all(r.corr for r in vruns), ok, kf,
-                                                 {"failures": fails[:4], "classes": vcl,
+                                                 {"failures": fails[:4], "classes": cl, "variant_classes": vcl,
                                                   "corr_break": next((r.why for r in vruns if not r.corr), None)}, nontriv)))
     return results
 
@@ -651,10 +450,12 @@ def build_group(case, shape, mode, rng, nbase, nnoise, ntrans, transforms=None):
     for k in range(nnoise):
         vc = G.t_noise(rng, case)
         g["variants"]["noise%d" % k] = (vc, make_runs(vc, mode, [()], "noise%d" % k))
-    dup = bool(G.Skeleton(case).dup_names())
-    for name in (transforms if transforms is not None else ["reorder", "move", "split", "merge"]):
-        if dup and name != "reorder":
-            continue
+    sk0 = G.Skeleton(case)
+    dup, dupev = bool(sk0.dup_names()), bool(sk0.dup_events())
+    default = ["reorder", "movedef"] if dup else (["reorder", "move", "split", "merge"] + (["reverse"] if dupev else []))
+    for name in (transforms if transforms is not None else default):
+        if dup and name not in ("reorder", "movedef", "reverse"):
+            continue            # merging two same-named definitions into one module is not valid Rust
         vc = G.TRANSFORMS[name](rng, case)
         if G.Skeleton(vc).dup_names() and not dup:
             continue
